@@ -5,6 +5,7 @@
    lemmas below. *)
 From Coq Require Import ZArith List Bool String Lia.
 From PV Require Import Units.Tables.
+From PV Require Export Units.SigProofs.
 Import ListNotations.
 Local Open Scope string_scope.
 
@@ -69,26 +70,6 @@ Proof.
 Qed.
 
 (* ---------- signatures ---------- *)
-Lemma sig_eqb_eq : forall a b, sig_eqb a b = true -> a = b.
-Proof.
-  induction a as [|x a IH]; destruct b as [|y b]; simpl; intros H; try discriminate; auto.
-  apply andb_true_iff in H. destruct H as [H1 H2].
-  apply Z.eqb_eq in H1. subst. f_equal. auto.
-Qed.
-
-Lemma sig_eqb_refl : forall a, sig_eqb a a = true.
-Proof. induction a; simpl; auto. rewrite Z.eqb_refl. auto. Qed.
-
-Lemma sig_eqb_iff : forall a b, sig_eqb a b = true <-> a = b.
-Proof. split; [apply sig_eqb_eq|intros ->; apply sig_eqb_refl]. Qed.
-
-Lemma sig_eqb_sym : forall a b, sig_eqb a b = sig_eqb b a.
-Proof.
-  intros a b. destruct (sig_eqb a b) eqn:E1; destruct (sig_eqb b a) eqn:E2; auto.
-  - apply sig_eqb_eq in E1. subst. rewrite sig_eqb_refl in E2. discriminate.
-  - apply sig_eqb_eq in E2. subst. rewrite sig_eqb_refl in E1. discriminate.
-Qed.
-
 Lemma cls_sig_length : forall c, List.length (cls_sig c) = 9%nat.
 Proof. intros. unfold cls_sig. rewrite map_length. reflexivity. Qed.
 
